@@ -70,6 +70,8 @@ M = [
  ('simd-mask-sh6',  'convolution/u8x4/sse4.rs', '15, 14, 11, 10, 15, 14, 11, 10, 15, 14, 11, 10, 15, 14, 11, 10,', '15, 14, 11, 10, 15, 14, 11, 10, 15, 14, 11, 10, 15, 14, 9, 8,', ['C02']),
  ('simd-mask-sh7',  'convolution/u8x4/sse4.rs', 'let sh7 = _mm_set_epi8(-1, 7, -1, 3,', 'let sh7 = _mm_set_epi8(-1, 7, 3, -1,', ['C02']),
  ('simd-load-x4',   'convolution/u8x4/sse4.rs', 'source = simd_utils::loadu_si128(src_row, x + 4);\n\n            pix = _mm_shuffle_epi8(source, sh1);\n            mmk = _mm_shuffle_epi8(ksource, sh5);', 'source = simd_utils::loadu_si128(src_row, x + 3);\n\n            pix = _mm_shuffle_epi8(source, sh1);\n            mmk = _mm_shuffle_epi8(ksource, sh5);', ['C02']),
+ ('simd4-mask-hi',  'convolution/u8x4/sse4.rs', 'let mask_hi = _mm_set_epi8(-1, 15, -1, 11,', 'let mask_hi = _mm_set_epi8(-1, 15, -1, 10,', ['C02']),
+ ('simd4-clone',    'convolution/u8x4/sse4.rs', 'simd_utils::mm_load_and_clone_i16x2(&k[2..]);', 'simd_utils::mm_load_and_clone_i16x2(&k[1..]);', ['C02']),
  ('alpha-list',     'mul_div.rs', 'PixelType::U8x2\n', 'PixelType::U8x3\n', ['C06', 'C07']),
 ]
 
